@@ -5,6 +5,7 @@ mod edits;
 mod gen;
 mod interp;
 mod iso;
+mod mutate;
 mod ops;
 mod optable;
 mod props;
@@ -126,6 +127,10 @@ fn main() {
             }
             println!("generated {} modules, {} invalid, avg ops {}, avg size {}", n, bad, total_ops / n, sizes / n);
         }
+        Some("parse-child") => {
+            let path = args.get(2).cloned().unwrap_or_else(|| usage());
+            std::process::exit(props::c05::child_main(&path));
+        }
         Some("emit-hash") => {
             let path = args.get(2).cloned().unwrap_or_else(|| usage());
             let bytes = std::fs::read(path).unwrap();
@@ -167,8 +172,15 @@ fn main() {
         Some("dump") => {
             // write the wasm a replay file denotes to stdout path
             let path = args.get(2).cloned().unwrap_or_else(|| usage());
-            let (_, input) = load_replay(&path).unwrap();
-            if let Some(p) = props::prepare(&input) {
+            let (prop, input) = load_replay(&path).unwrap();
+            if prop == "C05" {
+                let mut o = CaseOut::default();
+                if let Some((b, _)) = props::c05::materialise(&input, &mut o) {
+                    let out = args.get(3).cloned().unwrap_or_else(|| "/dev/stdout".into());
+                    std::fs::write(out, &b).unwrap();
+                    eprintln!("{:?}", o.labels);
+                }
+            } else if let Some(p) = props::prepare(&input) {
                 let out = args.get(3).cloned().unwrap_or_else(|| "/dev/stdout".into());
                 std::fs::write(out, &p.bytes).unwrap();
             }
